@@ -385,6 +385,16 @@ func (e *kvElection) becomeLeader(token string, rev uint64) bool {
 		return false
 	}
 
+	// A term is already running (e.g. an acquisition round that was started while
+	// the instance led re-created a key deleted by an outside party): promoting
+	// again would run OnPromote twice without a demotion in between and start a
+	// second set of heartbeat/validation loops. The running term's heartbeat
+	// notices that its record is gone and demotes; leadership is then re-acquired
+	// through the normal follower path.
+	if e.isLeader.Load() {
+		return false
+	}
+
 	// Context of this term, handed to OnPromote: cancelled when the term ends,
 	// by demotion (enterFollowerState) or because the election stops (parent).
 	// The goroutines started below use this copy: e.ctx is guarded by mu and may
